@@ -1305,6 +1305,18 @@ static void run_op(const op_t *op, const uint8_t *seed, size_t seed_len, uint64_
 	sim_alloc.fail_at[1] = fail2;
 	sim_alloc.fill = fill;
 	sim_alloc.fill_on = 1;
+	/* the digits above the length of every integer object the op may hand over hold what "an earlier, longer value"
+	 * left there - a pattern derived from the fill word, so that a result computed from them shows in the two-pattern
+	 * differential (relic never clears digits when a value shrinks; reading them, or extending a value over them
+	 * without clearing, uses storage the current value never wrote) */
+	for (int i = 0; i < NB; i++) {
+		bn_st *objs[2] = { B[i], R[i] };
+		for (int o = 0; o < 2; o++) {
+			for (size_t j = (size_t)objs[o]->used; j < (size_t)objs[o]->alloc; j++) {
+				objs[o]->dp[j] = (dig_t)(fill * 0x9E3779B97F4A7C15ULL + j * 0x100000001B3ULL) | 1;
+			}
+		}
+	}
 	sim_scrub_stack(fill ^ 0x5555);
 	*thrown = 0;
 	chain_bad = 0;
